@@ -315,6 +315,10 @@ def run(ctx) -> None:
                     a = rng.choice(done_set)
                     done_set.remove(a)
                     script.append(["unstep", a])
+            if rng.random() < 0.3:
+                # take everything back (the env is at its initial knowledge again) right before the next reset
+                while done_set:
+                    script.append(["unstep", done_set.pop(rng.randrange(len(done_set)))])
         drive(ctx, {"n": n, "generator": g, "computer": comp, "gap": gapname, "budget": budget,
                     "seed": rng.randint(0, 10**6), "script": script, "scale": rng.choice(sut.SCALES), "offset": rng.choice(OFFSETS)})
         ctx.count(f"n{n}_envs")
